@@ -12,7 +12,8 @@ from . import common
 from .common import Corr, f2hex, hex2f, flist
 
 ID = "C19"
-LEAN_MODULES = ["TempestVerif.Props.C19", "TempestVerif.Props.C19Nu", "TempestVerif.Props.C19Twin", "TempestVerif.Props.C19Modes"]
+LEAN_MODULES = ["TempestVerif.Props.C19", "TempestVerif.Props.C19Nu", "TempestVerif.Props.C19Twin", "TempestVerif.Props.C19Modes",
+                "TempestVerif.Props.C19Source"]
 RULE = ("regime T (fit-T): generated data sets, d=1..8; 75%: n in [4d,200], laws gauss / heavy (t with 2,3,5 dof) / skew (lognormal) / "
         "contam (5% outliers x20), random mixing matrix (cond <= ~30), per-coordinate scales 10^[-3,3] and shifts; 5%: 'spike' (one point "
         "carrying 30-95% of the sample: the resampled form of a heavily weighted particle, where opt_nu's bracket has no sign change); 20%: "
@@ -49,7 +50,12 @@ RULE = ("regime T (fit-T): generated data sets, d=1..8; 75%: n in [4d,200], laws
         "overridden by inf / nan on a schedule; oracle on the dof array the runner holds and on the shape argument of every "
         "np.random.gamma call.  property-T: the statement's own oracle on the real fit for d=1..8, n>=4d, four laws, scalings 2^[-20,20], "
         "shifts, permutations; degenerate sets; two (quick) / eight (thorough) recovery cases with n=20000.")
-MODELLED = ["special.psi (scipy's digamma) is a PARAMETER of the model of func0 / opt_nu: every theorem holds for every function psi; in the "
+MODELLED = ["SOURCE-DERIVED (translator G17, Props/C19Source.lean): every arithmetic expression, comparison and literal of fit_mvstud / opt_nu / func0 "
+            "and of from_particles / from_global the model mirrors is regenerated from /repo's source on every run (Gen/StudentSrc.lean: scalar "
+            "kernels over Sc / ScT, statement skeletons, call-argument tables) and the hand-written definitions are proved (rfl, every scalar "
+            "type) to unfold to exactly these terms; hand-copied remain the models of the numpy / scipy primitives the kernels are applied to "
+            "and the broadcasting layout (which map / zipWith applies a kernel) -- see clauses/C19.md, 'Source-derived model'",
+            "special.psi (scipy's digamma) is a PARAMETER of the model of func0 / opt_nu: every theorem holds for every function psi; in the "
             "Float replays its values are supplied as a table read from scipy",
             "scipy.optimize.bisect (C routine + _wrap_nan_raise + results_c) is modelled statement by statement (Model/StudentNu.lean: bisect, "
             "bisectLoop; the update test is signbit(fm) == signbit(fa), as the installed scipy (1.18) behaves — the test fm*fa >= 0 of older sources misfires when the product underflows "
@@ -84,6 +90,11 @@ ASSUMPTIONS = ["n >= 2 and finite data; positive definiteness of every iterate a
                "the configured dof_fallback is a finite number (config.DOF_FALLBACK = 1e6 in the shipped wiring: checked by kernel-handoff)"]
 
 LAWS = ("gauss", "heavy", "skew", "contam")
+
+
+def translators():
+    from translate import g17_student
+    return g17_student.generate_all()
 
 
 # ------------------------------------------------------------------------------------------- data
